@@ -1,4 +1,4 @@
-// Type-level witness for C13 (rule CTX-O): precedence applied AFTER a contextual functor, (rule >>= f)[n], must keep the
+// Type-level witness for C13 (rules CTX-O, CTX-T): precedence applied AFTER a contextual functor, (rule >>= f)[n], must keep the
 // rule contextual. The functor strictly requires the context, so losing the flag makes this TU ill-formed. Optional TU:
 // when it does not compile, C13 reports the compiler's diagnostic; the other checks are unaffected.
 #include <ctpg/ctpg.hpp>
@@ -20,7 +20,9 @@ namespace w_ctxflag
         rules(
             e('a') >= val(1),
             (e(e, '-', e) >>= [](ctx_t& c, int a, skip, int b) { ++c.n; return a - b; })[2],
-            (e('-', e)[3] >>= [](ctx_t& c, skip, int a) { ++c.n; return -a; })
+            (e('-', e)[3] >>= [](ctx_t& c, skip, int a) { ++c.n; return -a; }),
+            // a contextual functor that could ALSO be called without the context (rule CTX-T): it must still get it
+            e('a', 'a') >>= [](auto&&... args) { return int(sizeof...(args)); }
         )
     );
 
